@@ -42,6 +42,10 @@ fn call_long(name: &str, v: libc::c_long) {
 pub fn eintr_every(n: i64) {
     call_long("vshim_eintr", n as libc::c_long)
 }
+/// the n-th following shared file mapping of this process fails with ENOMEM
+pub fn mmap_fail(n: i64) {
+    call_long("vshim_mmap_fail", n as libc::c_long)
+}
 pub fn arm_kill(k: i64) {
     call_long("vshim_arm_kill", k as libc::c_long)
 }
